@@ -97,6 +97,23 @@ def main():
             out.write("END\n")
             k = "%s|%s" % (A.split()[0], B.split()[0])
             hist[k] = hist.get(k, 0) + 1
+    # THREE callers of the same new key, two preemptions of the first: A misses and is parked; B misses,
+    # stores and returns; A runs on into its own store and is parked again; C calls — C started after a call
+    # that stored the result had returned, so it must be served from the cache
+    ntri = 0
+    with open(a.out, "a") as out:
+        for f in allf:
+            if f["fl"] == "t" or f["sig"] != 0 or f["gates"] or f["ret"] != 0:
+                continue
+            if f["ttl"] or f["mem"] or f["cache_if"] or f["inval_on"] or (f["limit"] is not None and f["limit"] < 3):
+                continue
+            if ntri >= (90 if a.count > 0 else 600):
+                break
+            for p1 in range(1, 4):
+                for p2 in range(p1 + 1, 7):
+                    out.write("CCASE t3-%d-%d f%d %s %s %s\n" % (a.seed, ntri, f["idx"], f["fl"], f["pol"], f["limit"] if f["limit"] else "-"))
+                    out.write("P %s\nA %s\nB %s\nC %s\nPAUSE %d\nPAUSE2 %d\nQ %s\nEND\n" % (call(f, 1), call(f, 0), call(f, 0), call(f, 0), p1, p2, call(f, 0)))
+                    ntri += 1
     # overlapping lookups of a stored key (values whose Clone the harness can hold)
     npar = 0
     with open(a.out, "a") as out:
@@ -113,7 +130,8 @@ def main():
             if f["ret"] == 0 and nstress < (12 if a.count > 0 else 40):
                 out.write("STRESS st-%d-%d f%d 6 250 %d %d\nEND\n" % (a.seed, nstress, f["idx"], r.below(1 << 30), f["limit"] or 3))
                 nstress += 1
-    json.dump(dict(schedules=len(cases) + npar + nstress, enumeration=total + npar + nstress, overlapping_lookups=npar,
+    json.dump(dict(schedules=len(cases) + npar + nstress + ntri, enumeration=total + npar + nstress + ntri, overlapping_lookups=npar,
+                   three_caller_schedules=ntri,
                    stress_runs=nstress, op_pairs=hist), sys.stdout)
 
 
